@@ -48,44 +48,16 @@ _SRC = {}
 
 
 def doc_unit_args(repo, it):
-    """indices of the parameters the rustdoc of `it` requires to be normalized ("Will panic if `a` or `b` are not normalized")"""
-    import os
-    p = os.path.join(repo, it['file'])
-    if p not in _SRC:
-        try:
-            _SRC[p] = open(p, encoding='utf8', errors='replace').read().split('\n')
-        except OSError:
-            _SRC[p] = []
-    lines = _SRC[p]
-    i = it['line'] - 1
-    if not (0 <= i < len(lines)):
-        return []
-    sig = ''
-    for j in range(i, min(i + 12, len(lines))):
-        sig += ' ' + lines[j]
-        if '{' in lines[j] or ';' in lines[j]:
-            break
-    m = re.search(r'fn\s+\w+\s*(?:<[^>]*>)?\s*\(([^)]*)\)', sig)
-    if not m:
-        return []
-    params = []
-    for part in m.group(1).split(','):
-        part = part.strip()
-        if not part:
-            continue
-        nm = part.split(':')[0].strip()
-        nm = nm.replace('&', '').replace('mut ', '').strip()
-        params.append(nm)
+    """indices of the parameters the rustdoc of `it` requires to be normalized ("Will panic if `a` or `b` are not normalized"; the sentence may
+    wrap over several doc lines and may say "unit vector" / "unit length" / "normalised")"""
+    from common import rustdoc_of, fn_params
+    params = fn_params(repo, it)
+    doc = rustdoc_of(repo, it) or ''
     names = set()
-    j = i - 1
-    while j >= 0 and (lines[j].strip().startswith('///') or lines[j].strip().startswith('#[')):
-        st = lines[j].strip()
-        mm = re.search(r'Will panic if (.+?) (?:is|are) not normalized', st)
-        if mm:
+    for sent in re.split(r'(?<=[.!?])\s+', doc):
+        for mm in re.finditer(r'(?:[Ww]ill panic|[Pp]anics) if (.+?) (?:is|are) not (?:normali[sz]ed|(?:a )?unit (?:vectors?|length|quaternions?)|of unit length)', sent):
             names.update(re.findall(r'`(\w+)`', mm.group(1)))
-        j -= 1
     return sorted(params.index(n) for n in names if n in params)
-
 
 
 def _collect_conds(t, out, seen):
